@@ -139,7 +139,7 @@ class State:
                 ctx.check(ok, "panic-site", key, (f"{kind} in {d} — " + why), t["span"]["s"])
         ctx.analysed["panic_sites"] = n
         ctx.analysed["panic_sites_by_kind"] = per_kind
-        ctx.floor("panic-site", n, 60, "panic-capable sites inventoried in reachable code")
+        ctx.floor("panic-site", n, 40, "panic-capable sites inventoried in reachable code")
 
     def discharge(self, b, blk, t, site):
         kind, what = site
@@ -796,7 +796,7 @@ class State:
     # =====================================================================================
     # (2) loops
     # =====================================================================================
-    def loops(self, floor=24):
+    def loops(self, floor=14):
         ctx = self.ctx
         lib = self.lib
         consumes = self.consume_summary()
